@@ -1,5 +1,6 @@
 """C10 - push/pull/peek form exactly-once FIFO queues per prefix."""
 
+import collections
 import json
 import os
 import re
@@ -25,7 +26,7 @@ DISTINCT = ('cells', 'schedules')
 REQUIRED = ('sequential_calls', 'pulls_of_expired_heads', 'file_backed_items', 'ordinary_keys_interleaved',
             'schedules_checked', 'free_runs', 'items_delivered_concurrently', 'prefix_extension_cases',
             'timed_schedules_checked', 'timed_items_delivered', 'timed_items_expired_undelivered', 'queue_blocks_aborted',
-            'queue_blocks_committed')
+            'queue_blocks_committed', 'queue_timeouts_under_commit_contention')
 ASSUMPTIONS = ('a queue key is `prefix-<15 digits>` (or an int in (0, 10**15) for prefix None); every other key is an '
                'ordinary key outside the queue key range',)
 
@@ -570,6 +571,79 @@ def timed_schedule(dc, sc, res, rng, label):
         sc.drop(d)
 
 
+def queue_commit_contention(dc, sc, res, rng, label):
+    """Exactly-once when calls give up: a rollback-journal directory, reader threads that keep a shared lock alive, and
+    one client pushing and pulling with timeout 0 and retry off.  A push that raises Timeout enqueued nothing, a pull
+    that raises Timeout consumed nothing; draining afterwards delivers exactly the items of the pushes that returned,
+    in order."""
+    journal = rng.choice(['delete', 'truncate', 'persist'])
+    d = sc.new()
+    dc.Cache(d, disk_min_file_size=T, sqlite_journal_mode=journal).close()
+    worker = dc.Cache(d, timeout=0)
+    stop = threading.Event()
+
+    def reader():
+        c = dc.Cache(d, timeout=5)
+        try:
+            while not stop.is_set():
+                len(c)
+                c.get('q-500000000000000')
+                'x' in c
+        finally:
+            c.close()
+    threads = [threading.Thread(target=reader) for _ in range(2)]
+    for th in threads:
+        th.start()
+    model = collections.deque()
+    timeouts = 0
+    wit = {'label': label, 'journal_mode': journal}
+    try:
+        for n in range(70):
+            v = ('i%d;' % n) * (30 if rng.random() < 0.6 else 1)
+            try:
+                if rng.random() < 0.6:
+                    worker.push(v, prefix='q')
+                    model.append(v)
+                else:
+                    got = worker.pull(prefix='q')
+                    want = model.popleft() if model else None
+                    if got[1] != want:
+                        res.violation('pull under commit contention delivered %r, expected %r' % (str(got[1])[:12], str(want)[:12]), wit)
+                        return
+            except dc.Timeout:
+                timeouts += 1
+            except Exception as exc:      # noqa: BLE001
+                res.violation('a queue call with retry off raised %s (%s) under commit contention' % (type(exc).__name__, exc), wit)
+                return
+    finally:
+        stop.set()
+        for th in threads:
+            th.join(30)
+    fresh = dc.Cache(d)
+    try:
+        left = []
+        while True:
+            k, v = fresh.pull(prefix='q')
+            if k is None:
+                break
+            left.append(v)
+        res.count('evaluations')
+        res.count('queue_commit_contention_runs')
+        res.count('queue_timeouts_under_commit_contention', timeouts)
+        if left != list(model):
+            res.violation('after %d timed-out queue calls the queue holds %d items, the calls that returned left %d' % (
+                timeouts, len(left), len(model)), dict(wit, first_difference=next(
+                    (i for i, (a, b) in enumerate(zip(left, model)) if a != b), min(len(left), len(model)))))
+            return
+        problems = observe.invariant(d)
+        if problems:
+            res.violation('after a queue run with timed-out calls: %r' % problems[:3], wit)
+    finally:
+        fresh.close()
+        worker.close()
+        sc.drop(d)
+
+
 CHILD = r'''
 import json, random, sys, time
 sys.path.insert(0, %(verif)r)
@@ -718,6 +792,8 @@ def run_shard(tier, seed, shard, nshards, res):
             if res.counters.get('violations_raw', 0) > 8:
                 return
         probe.reset()
+        for i in range(1 if tier == 'quick' else 8):
+            queue_commit_contention(dc, sc, res, common.rng_for(seed, 'c10q', shard, i), 'c10 commit contention seed=%d shard=%d i=%d' % (seed, shard, i))
         for i in range(1 if tier == 'quick' else 8):
             rng = common.rng_for(seed, 'c10f', shard, i)
             topo = 'processes' if (shard + i) % 2 else 'threads'
